@@ -80,6 +80,9 @@ type ctlSys struct {
 
 	layout        int // layout currently in the store
 	appliedLayout int // layout last handed to SetPools (-1 none)
+	// C18 (integrated): was the pool handler invoked by the last pool delivery, did the last invocation succeed, and
+	// did the allocator already have exactly the cluster's layout when that delivery started
+	poolHandlerCalled, lastSetPoolsOK, poolDeliveryUnchanged bool
 	layoutDumps   []string
 
 	// environment answers for the delivery in progress
@@ -225,7 +228,10 @@ func (s *ctlSys) start() {
 				}
 			}
 			s.handlerCalls = append(s.handlerCalls, "SetPools")
-			return s.c.SetPools(l, pools)
+			s.poolHandlerCalled = true
+			st := s.c.SetPools(l, pools)
+			s.lastSetPoolsOK = st == controllers.SyncStateSuccess || st == controllers.SyncStateReprocessAll
+			return st
 		},
 	}
 	s.sr = &controllers.ServiceReconciler{Client: s.store, Logger: log.NewNopLogger(), Handler: s.lst.ServiceHandler, Reload: s.reloadCh}
@@ -399,6 +405,8 @@ var burstMode = true
 var faultMenu = false
 var crashMenu = false
 var poolFaultMenu = false
+var readFaultMenu = false
+var poolResyncMenu = false
 var poolFaultKinds = []string{"Namespace", "IPAddressPool", "Community"}
 
 func (s *ctlSys) Enabled() []verifrt.Event {
@@ -419,6 +427,13 @@ func (s *ctlSys) Enabled() []verifrt.Event {
 		}
 		if s.svcQ.Has("reload") && !s.fullSyncOK {
 			evs = append(evs, verifrt.Event{Kind: "svc", S: "reload", B: 2, Fault: true}) // listing the Services fails during the first full sync
+		}
+	}
+	if readFaultMenu {
+		for _, k := range s.svcQ.Keys() {
+			if k != "reload" {
+				evs = append(evs, verifrt.Event{Kind: "svc", S: k, B: 3, Fault: true}) // reading the Service fails once (not a "not found")
+			}
 		}
 	}
 	if poolFaultMenu && s.poolQ.Has("pool") {
@@ -448,7 +463,7 @@ func (s *ctlSys) Enabled() []verifrt.Event {
 				evs = append(evs, verifrt.Event{Kind: "del", A: i, User: true})
 			}
 		}
-		if poolFaultMenu && s.quiescent() {
+		if (poolFaultMenu || poolResyncMenu) && s.quiescent() {
 			// an event that re-runs the pool reconciler although nothing it reads changed (a namespace gets an unrelated label,
 			// the informer re-lists)
 			evs = append(evs, verifrt.Event{Kind: "poolresync", User: true})
@@ -555,6 +570,8 @@ func (s *ctlSys) Apply(ev verifrt.Event) {
 		s.restart()
 	case "pool":
 		s.poolQ.Take("pool")
+		s.poolDeliveryUnchanged = s.appliedLayout == s.layout && s.lastSetPoolsOK
+		s.poolHandlerCalled = false
 		if ev.B > 0 {
 			failed := false
 			kindToFail := poolFaultKinds[ev.B-1]
@@ -585,6 +602,18 @@ func (s *ctlSys) Apply(ev verifrt.Event) {
 			s.handlerCalls = append(s.handlerCalls, "single")
 		} else {
 			s.handlerCalls = append(s.handlerCalls, "full")
+		}
+		if ev.B == 3 {
+			// environment fault: getting the Service fails once with something else than "not found"
+			failed := false
+			s.store.Fail = func(op, kind string) error {
+				if op == "get" && kind == "Service" && !failed {
+					failed = true
+					return fmt.Errorf("verif: injected get failure")
+				}
+				return nil
+			}
+			s.failWrites = 0
 		}
 		if ev.B == 2 {
 			// environment fault: listing the Services fails once
